@@ -1,3 +1,201 @@
-From Coq Require Import List NArith.
+(* C29 — request deduplication runs at most one execution per key.
+   Statements only; every proof is `exact <lemma from Proof/C29*.v>`.
+
+   The models (Model/C29.v) are transition systems whose steps are the lock regions of
+   utils/dedup: a schedule is ANY list of labels (a label that is not enabled is a no-op), so
+   "forall ls" below is: every interleaving of any number of callers, completions, failures,
+   clock advances and garbage collections.  `lrun true` is the Limiter with
+   fixes/C29_gc_deleted_flag.patch, `lrun false` the Limiter as found. *)
+From Coq Require Import List NArith Bool.
 From K.Model Require Import C29.
-From K.Proof Require C29.
+From K.Proof Require C29 C29_rc.
+Import ListNotations.
+Local Open Scope N_scope.
+
+(* ---------------- Limiter: at most one execution per key in flight ---------------- *)
+
+Theorem C29_limiter_single_flight : forall iv ls c1 c2 k t1 t2,
+  let s := lrun true iv linit ls in
+  l_thr s c1 = LRunning k t1 -> l_thr s c2 = LRunning k t2 -> c1 = c2.
+Proof. exact Proof.C29.limiter_single_flight. Qed.
+Print Assumptions C29_limiter_single_flight.
+
+(* while an execution of k is in flight, a caller reaching its task lock does not run k again:
+   it waits on the running task or (its task was collected) starts over; nothing else moves *)
+Theorem C29_limiter_pending_waits : forall iv ls c c' k tid t',
+  let s := lrun true iv linit ls in
+  l_thr s c' = LRunning k t' -> l_thr s c = LHeld k tid ->
+  let s' := lstep true iv s (LDecide c) in
+  (l_thr s' c = LWait k t' \/ l_thr s' c = LStart k) /\
+  (forall x, x <> c -> l_thr s' x = l_thr s x) /\
+  (forall t, t_run (l_heap s' t) = t_run (l_heap s t)).
+Proof. exact Proof.C29.limiter_pending_waits. Qed.
+Print Assumptions C29_limiter_pending_waits.
+
+(* the collector never removes the task of an execution in flight *)
+Theorem C29_limiter_running_stays_mapped : forall iv ls c k tid,
+  let s := lrun true iv linit ls in
+  l_thr s c = LRunning k tid -> l_map s k = Some tid.
+Proof. exact Proof.C29.limiter_running_stays_mapped. Qed.
+Print Assumptions C29_limiter_running_stays_mapped.
+
+(* the code as found: two executions of one key in flight (the collector deletes a task that a
+   caller has looked up and not yet locked); witness = seed case `seed-gc-race` of the driver *)
+Theorem C29_limiter_gc_race_refuted :
+  exists iv ls c1 c2 k t1 t2,
+    let s := lrun false iv linit ls in
+    l_thr s c1 = LRunning k t1 /\ l_thr s c2 = LRunning k t2 /\ c1 <> c2.
+Proof. exact Proof.C29.limiter_gc_race_refuted. Qed.
+Print Assumptions C29_limiter_gc_race_refuted.
+
+(* the code as found is single-flight on every schedule in which no collection deletes a task
+   that some caller holds between its lookup and its task lock (missing: the schedules that do) *)
+Theorem C29_limiter_single_flight_partial : forall iv ls c1 c2 k t1 t2,
+  gc_safe false iv linit ls = true ->
+  let s := lrun false iv linit ls in
+  l_thr s c1 = LRunning k t1 -> l_thr s c2 = LRunning k t2 -> c1 = c2.
+Proof. exact Proof.C29.limiter_single_flight_partial. Qed.
+Print Assumptions C29_limiter_single_flight_partial.
+
+(* ---------------- RequestCache ---------------- *)
+
+(* at most one thread has a key reserved or executing; in particular one execution per key *)
+Theorem C29_rc_single_flight : forall cf ls c1 c2 k,
+  let s := rrun cf rinit ls in
+  r_thr s c1 = RRunning k -> r_thr s c2 = RRunning k -> c1 = c2.
+Proof. exact Proof.C29_rc.rc_single_flight. Qed.
+Print Assumptions C29_rc_single_flight.
+
+Theorem C29_rc_single_holder : forall cf ls c1 c2 k,
+  let s := rrun cf rinit ls in
+  holdsb (r_thr s c1) k = true -> holdsb (r_thr s c2) k = true -> c1 = c2.
+Proof. exact Proof.C29_rc.rc_single_holder. Qed.
+Print Assumptions C29_rc_single_holder.
+
+(* while k is pending a Start of k reports ErrRequestPending and starts nothing ... *)
+Theorem C29_rc_pending_reports : forall cf ls c c' k,
+  let s := rrun cf rinit ls in
+  holdsb (r_thr s c') k = true -> startable (r_thr s c) = true ->
+  let s' := rstep cf s (RStart c k) in
+  r_thr s' c = RRet RPending /\ (forall x, x <> c -> r_thr s' x = r_thr s x) /\
+  (forall k', r_pend s' k' = r_pend s k') /\ r_used s' = r_used s.
+Proof. exact Proof.C29_rc.rc_pending_reports. Qed.
+Print Assumptions C29_rc_pending_reports.
+
+(* ... and ErrRequestPending is reported only while some thread really has k *)
+Theorem C29_rc_pending_only_if_held : forall cf ls c k,
+  let s := rrun cf rinit ls in
+  startable (r_thr s c) = true ->
+  r_thr (rstep cf s (RStart c k)) c = RRet RPending ->
+  exists c', holdsb (r_thr s c') k = true.
+Proof. exact Proof.C29_rc.rc_pending_only_if_held. Qed.
+Print Assumptions C29_rc_pending_only_if_held.
+
+(* after a request for k failed with e at t0: along every continuation, while the clock has not
+   passed t0 + ttl (NotFoundTTL or ErrorTTL), the error is cached, k is neither reserved nor
+   executing, and a Start of k returns e *)
+Theorem C29_rc_cached_error_until_expiry : forall cf ls1 ls2 c c' k e (nf : bool),
+  let s1 := rrun cf rinit ls1 in
+  r_thr s1 c = RRunning k ->
+  let ttl := if nf then c_nf cf else c_err cf in
+  let s3 := rrun cf (rstep cf s1 (RFinish c (Some (e, nf)))) ls2 in
+  r_now s3 <= r_now s1 + ttl ->
+  r_errs s3 k = Some (e, r_now s1 + ttl) /\
+  (forall x, holdsb (r_thr s3 x) k = false) /\
+  (startable (r_thr s3 c') = true -> r_thr (rstep cf s3 (RStart c' k)) c' = RRet (RErr e)).
+Proof. exact Proof.C29_rc.rc_cached_error_until_expiry. Qed.
+Print Assumptions C29_rc_cached_error_until_expiry.
+
+(* in any reachable state an unexpired cached error is what Start returns; nothing is reserved *)
+Theorem C29_rc_cached_error_reported : forall cf ls c k e exp,
+  let s := rrun cf rinit ls in
+  r_errs s k = Some (e, exp) -> r_now s <= exp -> startable (r_thr s c) = true ->
+  let s' := rstep cf s (RStart c k) in
+  r_thr s' c = RRet (RErr e) /\ (forall x, x <> c -> r_thr s' x = r_thr s x) /\
+  (forall k', r_pend s' k' = r_pend s k') /\ r_used s' = r_used s /\ r_pend s k = false.
+Proof. exact Proof.C29_rc.rc_cached_error_reported. Qed.
+Print Assumptions C29_rc_cached_error_reported.
+
+(* a Start that found no free worker and timed out returns ErrWorkersBusy and leaves k neither
+   pending nor held: the next Start of k is not told "pending" *)
+Theorem C29_rc_busy_leaves_nothing : forall cf ls c c2 k d,
+  let s := rrun cf rinit ls in
+  r_thr s c = RArmed k d -> d <= r_now s ->
+  let s' := rstep cf s (RTimeout c) in
+  r_thr s' c = RRet RBusy /\ r_pend s' k = false /\ (forall x, holdsb (r_thr s' x) k = false) /\
+  r_used s' = r_used s /\
+  (startable (r_thr s' c2) = true -> r_thr (rstep cf s' (RStart c2 k)) c2 <> RRet RPending).
+Proof. exact Proof.C29_rc.rc_busy_leaves_nothing. Qed.
+Print Assumptions C29_rc_busy_leaves_nothing.
+
+Theorem C29_rc_workers_bounded : forall cf ls, r_used (rrun cf rinit ls) <= c_workers cf.
+Proof. exact Proof.C29_rc.rc_workers_bounded. Qed.
+Print Assumptions C29_rc_workers_bounded.
+
+(* ---------------- IntervalTrap ---------------- *)
+
+(* start times of the task (latest first): consecutive runs are more than one interval apart *)
+Theorem C29_trap_once_per_interval : forall iv t0 ls,
+  gaps iv (tr_runs (trun iv (tinit t0) ls)) = true.
+Proof. exact Proof.C29.trap_once_per_interval. Qed.
+Print Assumptions C29_trap_once_per_interval.
+
+Theorem C29_trap_runs_apart : forall iv t0 ls i j,
+  let runs := tr_runs (trun iv (tinit t0) ls) in
+  (i < j)%nat -> (j < length runs)%nat ->
+  nth j runs 0 + iv < nth i runs 0 /\ t0 + iv < nth j runs 0.
+Proof. exact Proof.C29.trap_runs_apart. Qed.
+Print Assumptions C29_trap_runs_apart.
+
+(* ---------------- executable form used on observed traces ---------------- *)
+Theorem C29_lim_check_sound : forall iv n ms, lim_check (lmrun true iv n linit ms) = true.
+Proof. exact Proof.C29.lim_check_sound. Qed.
+Print Assumptions C29_lim_check_sound.
+
+(* ---------------- non-vacuity ---------------- *)
+
+(* Limiter, patched: thread 0 executes key 1, thread 1 waits on the same task *)
+Example C29_nonvacuous_limiter :
+  let s := lrun true 60 linit (concat (map (lexpand 2) [MBegin 0 1; MBegin 1 1; MEnter 0; MEnter 1])) in
+  l_thr s 0 = LRunning 1 0 /\ l_thr s 1 = LWait 1 0.
+Proof. vm_compute. split; reflexivity. Qed.
+
+(* Limiter as found, a collection-safe schedule in which a collection really deletes a task
+   (thread 0's finished one) and an execution is in flight afterwards *)
+Example C29_nonvacuous_partial :
+  let ls := concat (map (lexpand 2) [MBegin 0 1; MEnter 0; MFinish 0 7 5; MTick 61; MBegin 1 1; MEnter 1]) in
+  gc_safe false 60 linit ls = true /\
+  let s := lrun false 60 linit ls in
+  l_thr s 1 = LRunning 1 1 /\ t_del (l_heap s 0) = true /\ l_map s 1 = Some 1.
+Proof. vm_compute. repeat split; reflexivity. Qed.
+
+(* the refuting schedule is exactly one that gc_safe rejects, and the patched code survives it *)
+Example C29_race_schedule_is_unsafe :
+  gc_safe false Proof.C29.race_iv linit Proof.C29.race_sched = false /\
+  let s := lrun true Proof.C29.race_iv linit Proof.C29.race_sched in
+  l_thr s 0 = LHeld 1 1 /\ l_thr s 1 = LRunning 1 1.
+Proof. vm_compute. repeat split; reflexivity. Qed.
+
+(* RequestCache: one worker; thread 0 executes key 1, thread 1 is told "pending", thread 2 waits
+   for a worker with key 2, times out at BusyTimeout and leaves nothing *)
+Example C29_nonvacuous_rc :
+  let cf := mkRC 20 10 4 1 7 in
+  let s := rrun cf rinit (concat (map (rexpand 3) [QStart 0 1; QStart 1 1; QStart 2 2; QTick 7])) in
+  r_thr s 0 = RRunning 1 /\ r_thr s 1 = RRet RPending /\ r_thr s 2 = RRet RBusy /\
+  r_pend s 2 = false /\ r_pend s 1 = true.
+Proof. vm_compute. repeat split; reflexivity. Qed.
+
+(* RequestCache: a failure is reported until ttl has passed and retried one tick later *)
+Example C29_nonvacuous_rc_error :
+  let cf := mkRC 20 10 4 1 7 in
+  let ops := [QStart 0 1; QFinish 0 (Some (2, false)) None; QTick 10; QStart 1 1; QTick 1; QStart 2 1] in
+  rmrun cf 3 rinit ops =
+  [[QRun 1; QIdle; QIdle]; [QIdle; QIdle; QIdle]; [QIdle; QIdle; QIdle];
+   [QIdle; QRet (RErr 2); QIdle]; [QIdle; QRet (RErr 2); QIdle]; [QIdle; QRet (RErr 2); QRun 1]].
+Proof. vm_compute. reflexivity. Qed.
+
+(* IntervalTrap: interval 10, runs at 11 and 22 (not at 21) *)
+Example C29_nonvacuous_trap :
+  tr_runs (trun 10 (tinit 0) (concat (map texpand
+    [TmTick 10; TmTrap 0 0; TmTick 1; TmTrap 0 0; TmTick 10; TmTrap 1 0; TmTick 1; TmTrap 1 0]))) = [22; 11].
+Proof. vm_compute. reflexivity. Qed.
